@@ -198,6 +198,13 @@ def _run_main(ctx):
         nf = rng.choice([1, 2, 5, 12, 30])
         fs = sorted(set(C.dyadic(rng, f, f, 16) for f in
                         (math.exp(rng.uniform(math.log(5e-4), math.log(7.9))) for _ in range(nf))))
+        # the kinematic members are element-wise in frequency: a coordinate stored descending (period
+        # ascending) or in no particular order must give the same value at each frequency
+        forder = rng.choice(["ascending", "ascending", "ascending", "descending", "shuffled"])
+        if forder == "descending":
+            fs = fs[::-1]
+        elif forder == "shuffled":
+            rng.shuffle(fs)
         depths = []
         for _ in range(npnt):
             r = rng.random()
@@ -212,7 +219,7 @@ def _run_main(ctx):
              "depth": [C.fx(v) for v in depths], "seed": i, "ndir": rng.choice([4, 8])}
         cases.append(c)
         mlines.append("spec %s %s %s" % (C.fx(G0), C.flist(fs), "%d %s" % (len(depths), " ".join(C.fx(v) for v in depths))))
-        meta.append(("spec", dict(kind=kind, dims=dims, lead=lead, fs=fs, depths=depths)))
+        meta.append(("spec", dict(kind=kind, dims=dims, lead=lead, fs=fs, depths=depths, forder=forder)))
 
     # ------------------------------------------------------------------ monotone scans (implementation only)
     scans = []
@@ -379,6 +386,7 @@ def _run_main(ctx):
                 ctx.oracle_fail("spectrum wavenumber/wavelength/wave_speed/group_velocity: %s: %s" % (im["error"], im["msg"]), rep)
                 continue
             ctx.tally("spec:%s:%s" % (info["kind"], ",".join(info["dims"]) or "scalar"))
+            ctx.tally("spec-frequency-order:" + info.get("forder", "ascending"))
             vals = [C.unfx(v) for v in r[2:]]
             mk = vals[0::4]; mwl = vals[1::4]; mws = vals[2::4]; mgv = vals[3::4]
             ik = [C.unfx(v) for v in im["wavenumber"]]; iwl = [C.unfx(v) for v in im["wavelength"]]
